@@ -454,6 +454,45 @@ func s3s4(w *World, r *Report) {
 			return true
 		})
 		if lit == nil {
+			// the literal built by a method of the transaction that EncodeRLP calls on itself
+			// (`rtx, err := tx.toRLP()`): that method's body is read instead
+			var helper *ast.FuncDecl
+			var hinfo *types.Info
+			ast.Inspect(fd.Body, func(n ast.Node) bool {
+				ce, ok := n.(*ast.CallExpr)
+				if !ok || len(ce.Args) != 0 {
+					return true
+				}
+				se, ok := ce.Fun.(*ast.SelectorExpr)
+				if !ok {
+					return true
+				}
+				rid, ok := se.X.(*ast.Ident)
+				if !ok || fd.Recv == nil || len(fd.Recv.List) != 1 || len(fd.Recv.List[0].Names) != 1 || rid.Name != fd.Recv.List[0].Names[0].Name {
+					return true
+				}
+				if hd, hi := w.declOf(pkgCT, "Trx", se.Sel.Name); hd != nil && hd != fd {
+					helper, hinfo = hd, hi
+				}
+				return true
+			})
+			if helper != nil {
+				ast.Inspect(helper, func(n ast.Node) bool {
+					if cl, ok := n.(*ast.CompositeLit); ok {
+						if tv, ok := hinfo.Types[cl]; ok {
+							if nn, ok := tv.Type.(*types.Named); ok && nn.Obj() == rpl.Obj() {
+								lit = cl
+							}
+						}
+					}
+					return true
+				})
+				if lit != nil {
+					fd, info = helper, hinfo
+				}
+			}
+		}
+		if lit == nil {
 			r.Undecided("S-3", "Trx.EncodeRLP:literal", "Trx.EncodeRLP no longer builds a trxRPL literal")
 		} else {
 			keyed := map[string]ast.Expr{}
